@@ -131,7 +131,7 @@ func init() {
 			me := x.cur
 			x.block("quiesce", func() bool {
 				for _, g := range x.goroutines {
-					if g != me && !g.done && (g.ready == nil || g.waitDesc != "quiesce" && g.ready()) {
+					if g != me && !g.done && (g.ready == nil || g.waitDesc != "quiesce" && g.waitDesc != "tick" && g.ready()) {
 						return false
 					}
 				}
